@@ -110,11 +110,11 @@ CLAIMED = {
    text="Theorem C03_roundtrip_core_partial (ParseProof.roundtrip_core, by induction over the tree with a simulation of the parser's "
         "loops): a precedence-climbing parser of Python's expression grammar (Parse.pc) reads back EXACTLY the tree from the tokens the "
         "unparser prints, for every tree of any depth over the operator core - 13 binary, 4 unary, 2 boolean operators, comparison "
-        "chains of all 10 operators, conditional expressions, lambdas with every parameter list (positional-only, positional, *args / bare *, keyword-only, **kwargs, defaults), assignment expressions, attribute / subscript (plain, tuple, slice) trailers, calls with "
+        "chains of all 10 operators, conditional expressions, lambdas with every parameter list (positional-only, positional, *args / bare *, keyword-only, **kwargs, defaults), assignment expressions, attribute / subscript (plain, tuple, slice, index tuples with slices among their items) trailers, calls with "
         "positional / starred / keyword / double-starred arguments, list / tuple / set / dict displays with starred elements, list / set / "
         "dict comprehensions, generator expressions as the bare only argument of a call and as a whole parenthesised expression, groups, names, opaque literals - with the precedence ladder and slot table REGENERATED from the code (C03_context_* are the "
         "finite table facts: a changed precedence or slot breaks them); C03_is_not_ambiguity (`a is (not b)`); C03_paren_iff. PARTIAL: "
-        "generator expressions as operands of other nodes, index tuples containing slices, f-strings, yield/await are outside the proved "
+        "generator expressions as operands of other nodes, f-strings, yield/await are outside the proved "
         "core and are decided by CPython's parser on the exhaustive (parent,slot) x child compositions, every lambda signature, sampled "
         "depth-3 / deep / right-edge trees, standard-library expressions (support). The parser model is validated against ast.parse "
         "through CPython's tokenizer. C03_printer_is_unparser (ParseTie.tie_all, induction over the tree): the printer of the theorem IS the unparser model - "
